@@ -74,6 +74,7 @@ class Helper:
             self.ok = False
         self.single_expr = len(self.body) == 1 and isinstance(self.body[0], ast.Return) and self.body[0].value is not None and not self.is_gen
         self.expr = self.body[0].value if self.single_expr else None
+        self.from_branches = False
         # `if c: return A else: return B` (possibly nested): the conditional expression `A if c else B`
         if not self.single_expr and not self.is_gen:
             def as_expr(stmts):
@@ -93,6 +94,7 @@ class Helper:
             if e is not None:
                 self.expr = e
                 self.single_expr = True
+                self.from_branches = True
         # a generator that is one loop yielding one expression is a generator expression
         if self.is_gen and len(self.body) == 1 and isinstance(self.body[0], ast.For) and not self.body[0].orelse and len(self.body[0].body) == 1:
             y = self.body[0].body[0]
@@ -704,7 +706,7 @@ class Inliner:
                 if not h.ok:
                     self.left.add(h.qual)
                     return n
-                if h.single_expr:
+                if h.single_expr and not (h.from_branches and n is e and top_call and not h.is_gen):
                     new = self.expr_inline(h, n, recv)
                     if new is not None:
                         self.changed = True
@@ -919,6 +921,13 @@ def inline_unknown(trees_by_relpath, unknown, report):
                 if inl.process_function(node, cls):
                     progress = True
                     touched.add((rel, q))
+                    # a helper whose own body was just rewritten is described anew: its summary (body list,
+                    # expression form) still points at the statements before the rewrite
+                    for h in helpers.values():
+                        if h.node is node:
+                            was_ok = h.ok
+                            h.__init__(h.rel, h.qual, node, h.cls)
+                            h.ok = h.ok and was_ok
         # drop helpers without remaining references
         for rel, tree in trees_by_relpath.items():
             def prune(body):
